@@ -25,12 +25,20 @@ FLOOR = {"assignments": 800, "var:input-object": 30, "var:list": 30, "one-of-val
 def gen_cases(run, n, prefix="c"):
     rng = run.rng
     out = []
+    shared = {}
     for i in range(n):
-        schema = gen_input_schema(rng)
-        kind = ["query", "query", "mutation", "query", "subscription"][i % 5]     # variables are declared the same way on every operation kind
-        op = gen_var_operation(schema, rng, name=rng.choice(["Op1", "GetThing", "Q9x"]), kind=kind)
+        if i % 32 >= 16 and (i - 16) in shared:
+            # the same schema and operation as case i-16, skip-none the other way round: the two are generated one after the other
+            # in ONE driver process (requests are dealt out to 16 processes round-robin), like two derives of one crate
+            schema, op = shared[i - 16]
+            run.count("cases-sharing-schema-with-the-previous-call")
+        else:
+            schema = gen_input_schema(rng)
+            kind = ["query", "query", "mutation", "query", "subscription"][i % 5]     # variables are declared the same way on every operation kind
+            op = gen_var_operation(schema, rng, name=rng.choice(["Op1", "GetThing", "Q9x"]), kind=kind)
+            shared[i] = (schema, op)
         doc = {"operations": [op], "fragments": []}
-        skip = (i % 2 == 1)
+        skip = ((i // 16) + i) % 2 == 1
         opts = {"skip_none": skip}
         if i % 4 >= 2:
             opts["normalization"] = "rust"
